@@ -244,3 +244,62 @@ func describeIdx(idx []ssa.Value) string {
 	}
 	return s
 }
+
+// fullRangeIndex: v is the index variable of a loop that visits 0..n-1 exactly
+// (go/ssa's rangeindex form `i' = i+1` from -1 with `i' < n`, or the classic
+// `i` from 0 with `i < n`, step 1). Returns n.
+func fullRangeIndex(v ssa.Value) (int64, bool) {
+	v = stripConv(v)
+	// rangeindex form: v = phi + 1, phi = [-1, v], cond v < n
+	if bo, ok := v.(*ssa.BinOp); ok && bo.Op == token.ADD {
+		if one, isc := constOf(bo.Y); isc && one == 1 {
+			if ph, ok := stripConv(bo.X).(*ssa.Phi); ok && len(ph.Edges) >= 2 {
+				init, okInit := int64(0), false
+				for _, e := range ph.Edges {
+					if k, isc := constOf(e); isc {
+						init, okInit = k, true
+					} else if stripConv(e) != ssa.Value(bo) {
+						return 0, false
+					}
+				}
+				if okInit && init == -1 {
+					return loopBound(ph.Block(), v)
+				}
+			}
+		}
+	}
+	// classic form: v = phi [0, phi+1], cond phi < n
+	if ph, ok := v.(*ssa.Phi); ok && len(ph.Edges) == 2 {
+		for i, e := range ph.Edges {
+			if k, isc := constOf(e); isc && k == 0 {
+				if bo, ok := stripConv(ph.Edges[1-i]).(*ssa.BinOp); ok && bo.Op == token.ADD && stripConv(bo.X) == ssa.Value(ph) {
+					if one, isc := constOf(bo.Y); isc && one == 1 {
+						return loopBound(ph.Block(), v)
+					}
+				}
+			}
+		}
+	}
+	return 0, false
+}
+
+// loopBound: the loop header block ends in `if idx < n` (n constant) entering the body on true.
+func loopBound(hdr *ssa.BasicBlock, idx ssa.Value) (int64, bool) {
+	if len(hdr.Instrs) == 0 {
+		return 0, false
+	}
+	iff, ok := hdr.Instrs[len(hdr.Instrs)-1].(*ssa.If)
+	if !ok {
+		return 0, false
+	}
+	bo, ok := iff.Cond.(*ssa.BinOp)
+	if !ok || bo.Op != token.LSS || stripConv(bo.X) != stripConv(idx) {
+		return 0, false
+	}
+	n, isc := constOf(bo.Y)
+	if !isc {
+		// len(array) of a fixed-size array is constant-folded; len(slice) is not accepted
+		return 0, false
+	}
+	return n, true
+}
